@@ -298,6 +298,10 @@ func (p *parser) parseByteSequence() ([]byte, error) {
 		return nil, errors.New("structuredheader: missing closing '*'")
 	}
 	s := p.getString(len)
+	if strings.ContainsAny(s, "\r\n") {
+		// base64.DecodeString ignores CR and LF; the grammar does not allow them.
+		return nil, fmt.Errorf("structuredheader: invalid character in byte sequence %q", s)
+	}
 	enc := base64.StdEncoding
 	if len%4 != 0 {
 		// Allow unpadded encoding.
